@@ -39,7 +39,7 @@ FINISH = dict(level="proof",
                    "row/column-major matrices and vectors, proxies, all assignment forms, explicit aliasing) from one "
                    "SplitMix64 stream; a statement is non-trivial if its right-hand side has depth >= 1; distinct = distinct op text")
 
-LAKE_TARGETS = ["SharkVerif.Props.C01", "drv_c01"]
+LAKE_TARGETS = ["SharkVerif.Props.C01", "SharkVerif.Gen.RemoraRules", "SharkVerif.Gen.RemoraOpt", "drv_c01"]
 JOBS = 4
 GEN_DIR = os.path.join(core.CACHE, "gen", "C01")
 
@@ -242,7 +242,16 @@ def translate(ctx):
 
 
 def build(ctx):
-    return None
+    """setup: pre-compile the fixed part of the harness and the corpus program (the generated
+    program depends on the seed and is compiled by the run itself, object files are cached)"""
+    translate(ctx)
+    calc = load_calc()
+    dense_c, sparse_c = corpus_program(ctx, calc)
+    _, tus, _ = render(dense_c + sparse_c, 1000)
+    exe = None
+    for cname, flags in CONFIGS:
+        exe = compile_program(ctx, f"c01-corpus-{cname}", tus, flags)
+    return exe
 
 
 def run(ctx):
